@@ -35,13 +35,13 @@ type Sel struct {
 }
 
 type Ptr struct {
-	Kind int
-	Cell *ssa.Alloc
-	Ref  T
-	Base types.Type // type of the base object: struct (PObj), boxed type (PBox), array element type (PArr), global type (PGlobal)
-	Name string     // PGlobal
+	Kind   int
+	Cell   *ssa.Alloc
+	Ref    T
+	Base   types.Type // type of the base object: struct (PObj), boxed type (PBox), array element type (PArr), global type (PGlobal)
+	Name   string     // PGlobal
 	Global *ssa.Global
-	Path []Sel
+	Path   []Sel
 }
 
 type Closure struct {
